@@ -138,7 +138,7 @@ def plan(form, arity, args):
     raise ValueError(form)
 
 
-def judge_callable(stats, report, kind, sig, with_klong, form, args):
+def judge_callable(stats, report, kind, sig, with_klong, form, args, prebound=None):
     from klongpy import KlongInterpreter
     arity = len(sig)
     pl = plan(form, arity, args)
@@ -167,6 +167,13 @@ def judge_callable(stats, report, kind, sig, with_klong, form, args):
             shutil.rmtree(d, ignore_errors=True)
         pylog = None
     else:
+        # the name may already hold something: storing a callable under an existing name must behave like a fresh one
+        if prebound == 'data':
+            k('fn::5')
+        elif prebound == 'klong-fn':
+            k('fn::{x}')
+        elif prebound == 'callable':
+            k['fn'] = lambda x: 99
         k['fn'] = make_callable(kind, sig, with_klong, log)
     for s_ in setup:
         k(s_)
@@ -186,13 +193,14 @@ def judge_callable(stats, report, kind, sig, with_klong, form, args):
     else:
         want = [tuple(lit(v) for v in e) for e in want_log]
     nontriv = arity >= 2 or with_klong or form != 'direct'
-    stats.case(('callable', kind, sig, with_klong, form, args[:arity]), nontrivial=nontriv,
-               classes=['part:callable', 'kind:' + kind, 'form:' + form, 'arity:%d' % arity] + (['klong-param'] if with_klong else []),
+    stats.case(('callable', kind, sig, with_klong, form, args[:arity], prebound), nontrivial=nontriv,
+               classes=['part:callable', 'kind:' + kind, 'form:' + form, 'arity:%d' % arity] + (['klong-param'] if with_klong else []) +
+               (['name held ' + prebound] if prebound else []),
                sample={"signature": ('klong, ' if with_klong else '') + ', '.join(sig), "kind": kind, "setup": setup, "call": call,
                        "log": [[show(v) for v in e] for e in log]})
-    case = {"part": "callable", "kind": kind, "sig": list(sig), "with_klong": with_klong, "form": form, "args": args}
+    case = {"part": "callable", "kind": kind, "sig": list(sig), "with_klong": with_klong, "form": form, "args": args, "prebound": prebound}
     perm = 'canonical' if list(sig) == ['x', 'y', 'z'][:arity] else 'permuted'
-    key = f"callable/{kind}/{perm}/arity{arity}/{form}"
+    key = f"callable/{kind}/{perm}/arity{arity}/{form}" + (f"/name-held-{prebound}" if prebound else '')
     if r[0] == 'err':
         report(key + '/raised', case, expected=f'log {want}', observed=r[1])
     elif len(log) != len(want) or any(len(a) != len(b) or not all(ceq(x, y, match=True) for x, y in zip(a, b)) for a, b in zip(log, want)):
@@ -209,7 +217,11 @@ def callable_cases():
             for with_klong in (False, True):
                 for form in FORMS:
                     for args in ARGSETS:
-                        yield kind, sig, with_klong, form, args
+                        yield kind, sig, with_klong, form, args, None
+                if kind != 'pyimport':
+                    for prebound in ('data', 'klong-fn', 'callable'):
+                        for form in ('direct', 'each') if 'each' in FORMS else ('direct',):
+                            yield kind, sig, with_klong, form, ARGSETS[0], prebound
 
 
 def callable_shard(idx, nshards):
@@ -364,7 +376,7 @@ def replay(case):
         out.append((fkey, expected, observed))
     if case["part"] == 'callable':
         judge_callable(st_, report, case["kind"], tuple(case["sig"]), case["with_klong"], case["form"],
-                       tuple(tuple(a) if isinstance(a, list) else a for a in case["args"]))
+                       tuple(tuple(a) if isinstance(a, list) else a for a in case["args"]), case.get("prebound"))
     elif case["part"] == 'wrapper':
         fails, _ = run_history([tuple(tuple(x) if isinstance(x, list) else x for x in o) for o in case["ops"]])
         out = [(f[0], f[1], f[2]) for f in fails]
